@@ -38,12 +38,11 @@ package proxy
 //@   property C42
 //@   option safety off
 //@   option stable (*Syncer).bpfSvcs, (*Syncer).bpfEps, (*Syncer).bpfMaglevEps
-//@   requires s != nil && !c42FrontDel && !c42BackUpd && !c42MagUpd && !c42FrontUpd && !c42BackDel
-//@   ghost at call ApplyDeletionsOnly#1: check arg0 == s.bpfSvcs && !c42BackUpd && !c42MagUpd && !c42FrontUpd && !c42BackDel ; c42FrontDel = true
-//@   ghost at call ApplyUpdatesOnly#1: check arg0 == s.bpfEps && c42FrontDel && !c42FrontUpd && !c42BackDel ; c42BackUpd = true
+//@   option stable-contracted
+//@   requires s != nil && !c42FrontDel && !c42BackUpd && !c42MagUpd && !c42FrontUpd && !c42BackDel && s.bpfSvcs != s.bpfEps && s.bpfSvcs != s.bpfMaglevEps && s.bpfEps != s.bpfMaglevEps
+//@   ghost at call ApplyDeletionsOnly: check (arg0 == s.bpfSvcs && !c42FrontDel && !c42BackUpd && !c42MagUpd && !c42FrontUpd && !c42BackDel) || (arg0 == s.bpfEps && c42FrontUpd && !c42BackDel) ; c42BackDel = c42BackDel || arg0 == s.bpfEps ; c42FrontDel = c42FrontDel || arg0 == s.bpfSvcs
+//@   ghost at call ApplyUpdatesOnly: check (arg0 == s.bpfEps && c42FrontDel && !c42BackUpd && !c42FrontUpd && !c42BackDel) || (arg0 == s.bpfSvcs && c42FrontDel && c42BackUpd && c42MagUpd && !c42FrontUpd && !c42BackDel) ; c42FrontUpd = c42FrontUpd || arg0 == s.bpfSvcs ; c42BackUpd = c42BackUpd || arg0 == s.bpfEps
 //@   ghost at call ApplyAllChanges: check arg0 == s.bpfMaglevEps && c42FrontDel && !c42FrontUpd ; c42MagUpd = true
-//@   ghost at call ApplyUpdatesOnly#2: check arg0 == s.bpfSvcs && c42FrontDel && c42BackUpd && c42MagUpd && !c42BackDel ; c42FrontUpd = true
-//@   ghost at call ApplyDeletionsOnly#2: check arg0 == s.bpfEps && c42FrontUpd ; c42BackDel = true
 //@   ensures res == nil ==> c42FrontDel && c42BackUpd && c42MagUpd && c42FrontUpd && c42BackDel
 
 //@ -- (3) the map entries carry the numbers they were given: the backend key is (service id, index), the frontend
